@@ -10,4 +10,4 @@ for id in "$@"; do
   VERIF_REPO=$WT /venv/bin/python tools/check.py $id 2>&1 | grep -E "^(VIOLATION|KNOWN-FINDING|OK)" | head -6
 done
 git -C /repo worktree remove --force $WT
-rm -rf /verif/.build/coq_* 2>/dev/null
+
